@@ -582,7 +582,9 @@ class Framer(tasking.Tasker):
             ScheduleNames[self.schedule],
             self.name))
 
-        exits = self.actives[:]  #make copy of self.actives so can reverse it
+        # exit the full outline of the active frame, not just .actives, since a
+        # conditional aux may have truncated .actives (suspended frames are still entered)
+        exits = self.active.outline[:] if self.active else self.actives[:]
         self.exit(exits) #exits is reversed in place in exit()
         self.deactivate()
         if not abort:
